@@ -267,12 +267,23 @@ pub fn check(c: &Case, st: &mut Stats) -> Check {
     }
     if valid_class {
         match &t_fin {
-            None => vfail!("complete valid request never answered: {}", descr()),
+            None => {
+                // a record mark that announces more than the stream holds: the record is not complete
+                let rec_end = if what.starts_with("rpc") && n >= 4 { 4 + (u32::from_be_bytes([s[0], s[1], s[2], s[3]]) & 0x7fff_ffff) as usize } else { 0 };
+                if rec_end > n {
+                    st.class("rpc:record-mark-announces-more-than-the-stream(not demanded)");
+                } else {
+                    vfail!("complete valid request never answered: {}", descr())
+                }
+            }
             Some((t, _)) => {
                 if *t < req_end {
                     return Err(Failure::new(format!("reply triggered at stream offset {} before the request is complete (offset {}): {}", t, req_end, descr())));
                 }
-                vensure!(*t == req_end, "reply triggered at stream offset {} but the request is complete at offset {}: {}", t, req_end, descr());
+                // ONC-RPC: "complete" is the end of the call header (verifier) or, just as well, the
+                // end of the record that the record mark announces (the arguments belong to the call)
+                let rec_end = if what.starts_with("rpc") && n >= 4 { 4 + (u32::from_be_bytes([s[0], s[1], s[2], s[3]]) & 0x7fff_ffff) as usize } else { req_end };
+                vensure!(*t == req_end || (*t == rec_end && rec_end > req_end), "reply triggered at stream offset {} but the request is complete at offset {}{}: {}", t, req_end, if rec_end > req_end { format!(" (its record at {})", rec_end) } else { String::new() }, descr());
             }
         }
     } else if let Some((t, _)) = &t_fin {
